@@ -25,11 +25,9 @@ Fixpoint expand_from (k : nat) (cur : Z) : list Z :=
 
 Definition expand_buf (start count : Z) : list Z := expand_from (Z.to_nat count) (start mod 251).
 
-Definition ck_mod : Z := 1000000007.
-
-(** sum of (i+1) * b_i mod ck_mod *)
+(** sum of (i+1) * b_i (exact; below 2^63 for buffers of at most 2^22 bytes) *)
 Definition cksum (bs : list Z) : Z :=
-  snd (fold_left (fun st b => (fst st + 1, (snd st + fst st * b) mod ck_mod)) bs (1, 0)).
+  snd (fold_left (fun st b => (fst st + 1, snd st + fst st * b)) bs (1, 0)).
 
 (** the response of the position-fault writer to a call (a, len) *)
 Definition pf_resp (F e : Z) (a len : Z) : list resp :=
